@@ -1,5 +1,6 @@
 import TaskModel.Resolve.GlobLemmas
 import TaskModel.Resolve.Table
+import TaskModel.Resolve.Suggest
 import TaskModel.Gen.ResolveOrder
 /-!
 # C15 — Task name resolution: exact name, then wildcard, then unique alias
@@ -364,6 +365,54 @@ theorem C15_run_only_resolved (tbl : List Entry) (reqs : List Str) (is : List Na
       · cases h
     · cases h
 
+/-! ## Suggestions: the error names the closest existing task name when there is one
+
+The oracle `Suggest.classify` (edit distances; `EditDist.lev_le_iff`: `lev a b ≤ k` iff `b` is
+reachable from `a` by at most `k` elementary edits) says what is demanded of
+`TaskNotFoundError.DidYouMean`; `Suggest.meets` is the verdict the correspondence domain
+`suggest` evaluates on the suggestion the real executor gave after a real `Setup`. -/
+
+open TaskModel.Resolve.Suggest TaskModel.Resolve.EditDist in
+/-- **the closest name is suggested**: when exactly one name or alias `w` of the table is
+within two edits of the request (class `must`), a suggestion that meets the oracle IS `w`
+— a trained word, within two edits, and the only such word. -/
+theorem C15_suggestion_closest (words : List Name) (req w : Name) (dym : Option Name)
+    (hc : classify words req = .must w) (hm : meets (classify words req) dym = true) :
+    dym = some w ∧ w ∈ words ∧ EditLe 2 req w ∧ ∀ w' ∈ words, EditLe 2 req w' → w' = w := by
+  rw [hc] at hm
+  simp only [meets, beq_iff_eq] at hm
+  exact ⟨hm, classify_must words req w hc⟩
+
+open TaskModel.Resolve.Suggest TaskModel.Resolve.EditDist in
+/-- several names within two edits: there IS a suggestion and it is one of them -/
+theorem C15_suggestion_one_of_the_close (words : List Name) (req : Name) (ws : List Name) (dym : Option Name)
+    (hc : classify words req = .oneOf ws) (hm : meets (classify words req) dym = true) :
+    ∃ d, dym = some d ∧ d ∈ words ∧ EditLe 2 req d := by
+  rw [hc] at hm
+  cases dym with
+  | none => simp [meets] at hm
+  | some d =>
+    simp only [meets, List.contains_eq_mem, decide_eq_true_eq] at hm
+    exact ⟨d, rfl, ((classify_oneOf words req ws hc).2 d).mp hm⟩
+
+open TaskModel.Resolve.Suggest TaskModel.Resolve.EditDist in
+/-- **no suggestion when nothing is close**: no name within three edits (class `none`), or a
+request more than two characters longer than every name (class `skip`: the lookup is not
+even made) — a suggestion that meets the oracle is absent. -/
+theorem C15_no_suggestion_when_far (words : List Name) (req : Name) (dym : Option Name)
+    (hc : classify words req = .none ∨ classify words req = .skip)
+    (hm : meets (classify words req) dym = true) :
+    dym = Option.none ∧ ((∀ w ∈ words, ¬ EditLe 3 req w) ∨ (∀ w ∈ words, w.length + 2 < req.length)) := by
+  rcases hc with hc | hc
+  · rw [hc] at hm
+    exact ⟨by simpa [meets] using hm, Or.inl (classify_none words req hc)⟩
+  · rw [hc] at hm
+    exact ⟨by simpa [meets] using hm, Or.inr (classify_skip words req hc)⟩
+
+/-- non-vacuity: names `build`, `test`; `buld` must be answered with `build`, `qqqqqq` with nothing -/
+example : Suggest.classify [[98,117,105,108,100], [116,101,115,116]] [98,117,108,100] = .must [98,117,105,108,100]
+    ∧ Suggest.classify [[98,117,105,108,100], [116,101,115,116]] [113,113,113,113,113,113] = .none := by decide
+
 /-! ## Non-vacuity: concrete tables meeting the hypotheses -/
 
 private def tbl : List Entry :=
@@ -405,6 +454,19 @@ theorem resolve_order_in_source :
       "fmt.Sprintf(\"(?s)^%s$\", strings.ReplaceAll(regexp.QuoteMeta(‹name›), `\\*`, \"(.*)\"))" ∧
     TaskModel.Gen.ResolveOrder.wildcardMatch = ["if:len==0", "return", "if:len!=wildcardCount", "return", "return"] := by
   decide
+
+/-- **Obligation.** `setupFuzzyModel` returns early only when NO Taskfile is loaded, sets the
+threshold to 1 (every word counts), feeds the model every key of the merged task table and
+every alias of every task (`Tasks.All(nil)`: the whole table), trains it once, and records the
+longest word; `Setup` calls it after `readTaskfile` (so before any task can run); `GetTask`
+asks the model (`SpellCheck`) on the not-found path. -/
+theorem suggestions_in_source :
+    TaskModel.Gen.ResolveOrder.fuzzyTrain =
+      ["guard:Taskfile==nil:return", "call:SetThreshold(1)", "range:Tasks.All(nil)",
+       "  ‹words› = append(‹words›, ‹key›)", "  ‹words› = slices.Concat(‹words›, ‹value›.Aliases)",
+       "call:Train(‹words›)", "range:‹words›", "  e.fuzzyModelMaxLen = max(e.fuzzyModelMaxLen, len(‹value›))"]
+    ∧ (TaskModel.Gen.ResolveOrder.setupSteps.dropWhile (· ≠ "readTaskfile")).contains "setupFuzzyModel" = true
+    ∧ TaskModel.Gen.ResolveOrder.getTask.contains "call:SpellCheck" = true := by decide
 
 /-- **Obligation.** In `Executor.Run`, the block that handles a request `GetTask` could not
 resolve calls `ListTasks` (the list of available tasks, a help for the user) and returns
